@@ -10,8 +10,8 @@ TITLE = "Emitted RTLIL is behaviourally equivalent to the simulated design"
 RULE = ("case = (generated program as in C02/C03: expressions, statements, 1..3 domains, module hierarchies with signals driven "
         "in one module and read in ancestors, descendants and siblings, partially driven / undriven / zero-width signals, "
         "nested ResetInserter / EnableInserter / DomainRenamer; or a lib.memory.Memory configuration as in C11; or a library component (SyncFIFO*, AsyncFIFO*, "
-        "crc.Processor, FFSynchronizer / AsyncFFSynchronizer / ResetSynchronizer / PulseSynchronizer) under its own C12/C13/C16/C17 "
-        "schedule; a seeded subset of "
+        "crc.Processor, FFSynchronizer / AsyncFFSynchronizer / ResetSynchronizer / PulseSynchronizer, io.Buffer / FFBuffer on composed "
+        "simulation ports) under its own C12/C13/C16/C17/C18 schedule; a seeded subset of "
         "the driven signals is exposed as top-level ports) x (explicit step list of input writes, clock edges alone / coincident, "
         "reset pulses). Side A: the real simulator with a permuted scheduler; side B: rtlil.convert() text executed by "
         "dsim/rtlil_eval.py under the same steps. Non-trivial = an output changed on both sides and a fault kind fired; "
@@ -29,7 +29,7 @@ COMPONENTS = {"real": ["amaranth.hdl._ir (build_netlist, emit_rhs/emit_assign/em
               "stub": ["RTLIL interpreter dsim/rtlil_eval.py (there is no Yosys offline)", "PermSet scheduler seam",
                        "clock/reset driver"]}
 EXPECTED_PROBES = ("sched", "coincide", "srst", "arst", "submodules", "fsm", "part", "array", "reset_inserter", "enable_inserter",
-                   "domain_renamer", "memory_design", "library_design", "library_C12", "library_C13", "library_C16", "library_C17", "compared_bits", "undefined_bits_skipped", "internal_signals")
+                   "domain_renamer", "memory_design", "library_design", "library_C12", "library_C13", "library_C16", "library_C17", "library_C18", "compared_bits", "undefined_bits_skipped", "internal_signals")
 OPTS = {"max_domains": 3, "max_modules": 4, "wrappers": True, "prints": False, "fsm": True, "max_stmts": 8, "depth": 2,
         "clock_reads": True}
 CHUNK = 4
@@ -44,7 +44,7 @@ def gen_case_i(seed, tier, index):
     if index % 8 == 5:
         # library components (real FIFOs with their synchronisers and memories, CRC processors) under their own C12/C13/C16
         # schedules: simulator vs emitted RTLIL
-        which = ["C12", "C13", "C16", "C17"][(index // 8) % 4]
+        which = ["C12", "C13", "C16", "C17", "C18"][(index // 8) % 5]
         from dsim import runner as _r
         mod = _r.load(which)
         c = _r.gen(mod, seed, tier, index)
@@ -350,6 +350,50 @@ def lib_adapter(which, config):
 
         def tr(st):
             return ("set", st["v"]) if st["k"] == "set" else ("drive", {k + ".clk": v for k, v in st["l"].items()})
+    elif which == "C18":
+        # I/O buffers on composed simulation ports: per-bit inversion, one register stage per direction, tristate loop-back
+        from amaranth.hdl import Module, Elaboratable
+        from amaranth.lib import io
+        from props import c18
+        bases, bdir = config["bases"], config["dir"]
+        sports = [io.SimulationPort(b["dir"], b["width"], invert=[bool((b["invert"] >> k) & 1) for k in range(b["width"])],
+                                    name="port%d" % i) for i, b in enumerate(bases)]
+        port = c18.realise(config["expr"], sports)
+        if config["buffer"] == "FFBuffer":
+            kw = {k: config[k] for k in ("i_domain", "o_domain") if config.get(k)}
+            buf = io.FFBuffer(bdir, port, **kw)
+        else:
+            buf = io.Buffer(bdir, port)
+        comp = config.get("companion")
+        buf2 = io.FFBuffer("o", sports[comp["base"]][comp["lo"]:comp["hi"]], o_domain=comp["domain"]) if comp else None
+
+        class Both(Elaboratable):
+            def elaborate(self, platform):
+                m = Module()
+                m.submodules.buf = buf
+                if buf2 is not None:
+                    m.submodules.buf2 = buf2
+                return m
+        dut = Both()
+        doms = [DomainSpec(dn, edge=config["edges"][dn], reset_less=True) for dn in c18.DOMS]
+        ins, outs = {}, {}
+        if bdir != "i":
+            ins["buf_o"], ins["buf_oe"] = buf.o, buf.oe
+        if bdir != "o":
+            outs["buf_i"] = buf.i
+        for bi, b in enumerate(bases):
+            if b["dir"] != "o":
+                ins["port%d_i" % bi] = sports[bi].i
+            if b["dir"] != "i":
+                outs["port%d_o" % bi] = sports[bi].o
+                outs["port%d_oe" % bi] = sports[bi].oe
+        if buf2 is not None:
+            ins["buf2_o"], ins["buf2_oe"] = buf2.o, buf2.oe
+
+        def tr(st):
+            if st["k"] == "set":
+                return ("set", {st["p"].replace(".", "_"): st["v"]})
+            return ("drive", {k + ".clk": v for k, v in st["l"].items()})
     elif which == "C17":
         # clock-domain-crossing primitives: registers with asynchronous set/reset driven by ordinary inputs
         from amaranth.hdl import Signal, Module, Elaboratable, ResetSignal
@@ -434,8 +478,8 @@ def run_lib(case, res, stats):
         def compare(idx):
             obs = []
             for n, s in outs.items():
-                if n not in D.top_ports:
-                    continue
+                if n not in D.top_ports or D.top_ports[n][1] == "input":
+                    continue        # (an output nothing drives, e.g. an unused port's `oe`, is an input of the emitted design)
                 a = drv.get(s) & ((1 << len(s)) - 1)
                 v, x, w = D.get(n)
                 if (a ^ v) & ~x & ((1 << w) - 1):
